@@ -81,11 +81,63 @@ func Check(p *core.Program, r *core.Report, g *GuardedStruct) (accesses int) {
 		names = append(names, n)
 	}
 	sort.Strings(names)
+	// Lock state on entry of unexported helpers: a helper that receives the guarded struct and is
+	// only ever called (statically, never taken as a value) with the mutex held starts in that state
+	// ("advance() is called with s.mutex held"). Two rounds cover a helper calling a helper.
+	entry := map[*ssa.Function]st{}
+	for round := 0; round < 2; round++ {
+		sites := map[*ssa.Function][]st{}
+		for _, name := range names {
+			fn := p.Funcs[name]
+			checkFunc(p, nil, g, fn, entry[fn], func(call ssa.CallInstruction, s st) {
+				callee := call.Common().StaticCallee()
+				if callee == nil || !core.InModule(callee) || len(callee.Blocks) == 0 || len(call.Common().Args) == 0 {
+					return
+				}
+				if !isPtrTo(g, call.Common().Args[0].Type()) || token.IsExported(callee.Name()) {
+					return
+				}
+				sites[callee] = append(sites[callee], s)
+			})
+		}
+		next := map[*ssa.Function]st{}
+		for callee, ss := range sites {
+			if usedAsValue(p, callee) {
+				continue
+			}
+			m := ss[0]
+			for _, x := range ss[1:] {
+				m = meet(m, x)
+			}
+			m.deferred = false // the unlock belongs to the caller
+			next[callee] = m
+		}
+		entry = next
+	}
 	for _, name := range names {
 		fn := p.Funcs[name]
-		accesses += checkFunc(p, r, g, fn)
+		accesses += checkFunc(p, r, g, fn, entry[fn], nil)
 	}
 	return accesses
+}
+
+// usedAsValue: the function is referenced other than as the callee of a static call.
+func usedAsValue(p *core.Program, fn *ssa.Function) bool {
+	for _, f := range p.Funcs {
+		for _, b := range f.Blocks {
+			for _, in := range b.Instrs {
+				for _, op := range in.Operands(nil) {
+					if *op == ssa.Value(fn) {
+						if c, ok := in.(ssa.CallInstruction); ok && c.Common().Value == ssa.Value(fn) {
+							continue
+						}
+						return true
+					}
+				}
+			}
+		}
+	}
+	return false
 }
 
 func isGuardedField(g *GuardedStruct, fa *ssa.FieldAddr) (string, bool, bool) {
@@ -120,7 +172,7 @@ func meet(a, b st) st {
 	return r
 }
 
-func checkFunc(p *core.Program, r *core.Report, g *GuardedStruct, fn *ssa.Function) int {
+func checkFunc(p *core.Program, r *core.Report, g *GuardedStruct, fn *ssa.Function, init st, onCall func(ssa.CallInstruction, st)) int {
 	if len(fn.Blocks) == 0 {
 		return 0
 	}
@@ -142,7 +194,7 @@ func checkFunc(p *core.Program, r *core.Report, g *GuardedStruct, fn *ssa.Functi
 	// forward must-analysis over the CFG
 	in := map[*ssa.BasicBlock]st{}
 	visited := map[*ssa.BasicBlock]bool{}
-	in[fn.Blocks[0]] = st{}
+	in[fn.Blocks[0]] = init
 	work := []*ssa.BasicBlock{fn.Blocks[0]}
 	visited[fn.Blocks[0]] = true
 	transfer := func(s st, inst ssa.Instruction, report bool) st {
@@ -201,6 +253,22 @@ func checkFunc(p *core.Program, r *core.Report, g *GuardedStruct, fn *ssa.Functi
 			work = append(work, succ)
 		}
 	}
+	if r == nil {
+		// pre-pass: only the lock state at call sites is wanted
+		for _, b := range fn.Blocks {
+			if !visited[b] {
+				continue
+			}
+			s := in[b]
+			for _, inst := range b.Instrs {
+				if c, ok := inst.(*ssa.Call); ok && onCall != nil {
+					onCall(c, s)
+				}
+				s = transfer(s, inst, false)
+			}
+		}
+		return 0
+	}
 	// report pass
 	n := 0
 	for _, b := range fn.Blocks {
@@ -243,7 +311,7 @@ func checkFunc(p *core.Program, r *core.Report, g *GuardedStruct, fn *ssa.Functi
 					}
 				}
 			case *ssa.Return:
-				if s.lk != unlocked {
+				if s.lk != unlocked && init.lk == unlocked {
 					r.Add("LOCK.release", fname, "return with mutex held", p.Position(x.Pos()), false,
 						"a path returns without releasing the mutex")
 				}
